@@ -176,6 +176,10 @@ func (h HttpSigTransport) BatchDeliver(c context.Context, b []byte, recipients [
 		go func(r *url.URL) {
 			defer wg.Done()
 			if err := h.Deliver(c, b, r); err != nil {
+				// Say which delivery failed, unless the error does.
+				if !strings.Contains(err.Error(), r.String()) {
+					err = fmt.Errorf("POST request to %s failed: %v", r, err)
+				}
 				errCh <- err
 			}
 		}(recipient)
